@@ -12,11 +12,11 @@ def check(repo, rep, tier):
                        'induction over the term the result of get_value on a ground answer shares no Variable with the live terms; '
                        'to_python reads components only through get_value/to_python; findall exports get_value results. Equality '
                        'of the returned structure with the mathematical instance is a value-level statement and not decided.')
-    rs.rule_deref_closure(em, rep, 'C15.V1')
-    rs.rule_to_python_siblings(em, rep, 'C15.V3')
-    rd.rule_findall_shape(em, rep, 'C15.V3b')
+    rep.run(rs.rule_deref_closure, em, rep, 'C15.V1')
+    rep.run(rs.rule_to_python_siblings, em, rep, 'C15.V3')
+    rep.run(rd.rule_findall_shape, em, rep, 'C15.V3b')
     # what get_value follows is what the binder wrote: nobody else rewrites the cell (no path shortening)
-    rb.rule_bind_ownership(em, rep, 'C15.V4')
+    rep.run(rb.rule_bind_ownership, em, rep, 'C15.V4')
     fr = rs.Freshness(em)
-    rs.rule_store_snapshot(em, rep, 'C15.V5s', fr)
-    rs.rule_copier_derefs(em, rep, 'C15.V5', fr)
+    rep.run(rs.rule_store_snapshot, em, rep, 'C15.V5s', fr)
+    rep.run(rs.rule_copier_derefs, em, rep, 'C15.V5', fr)
